@@ -194,9 +194,28 @@ FOCUS_SNIPPETS = [
 ]
 
 
+def decl_heavy(g, rng):
+    """a program made of declarations that carry properties (backend / director / table / acl)"""
+    out = []
+    tries = 0
+    while len(out) < rng.randint(1, 3) and tries < 60:
+        tries += 1
+        d = g.decl()
+        if d.startswith(("backend", "director", "table", "acl")) and d.count("\n") >= 4:
+            out.append(d)
+    return "\n".join(out)
+
+
 def gather_inputs(ctx, pid, n_gen, decorated_share=0.6, density=(0.05, 0.4), line_inline_share=0.06):
-    """-> list of dicts {label, src(bytes), origin, placed}"""
+    """-> list of dicts {label, src(bytes), origin, placed}.
+    Dimensions (counted in ctx.dims): program shape (grammar generator, repository files, focus programs),
+    literal content (gen/fmt_literals: relit on generated / repository programs, exhaustive context x feature x
+    kind matrix), comments (gen/decorate: random subsets with 1-3 comments per placeholder, empty lines around
+    them; exhaustive one / several comments per placeholder), declarations with property groups."""
+    from gen import fmt_literals
     rng = ctx.rng
+    dims = {"literals_replaced": 0, "literal_features": {}, "literal_matrix_programs": 0, "programs_relit": 0,
+            "programs_decorated": 0, "multi_comment_placeholders_random": 0, "decl_heavy_programs": 0}
     items = []
     for label, data, conf in corpus(pid):
         items.append({"label": label, "src": data, "origin": "corpus", "conf": conf})
@@ -205,14 +224,41 @@ def gather_inputs(ctx, pid, n_gen, decorated_share=0.6, density=(0.05, 0.4), lin
     for i, s in enumerate(FOCUS_SNIPPETS):
         items.append({"label": "focus-%d" % i, "src": s.encode(), "origin": "focus"})
     g = vclgen.Gen(rng, max_depth=4)
-    gen = []
+    base = []
     for i in range(n_gen):
         g.max_depth = rng.choice([2, 3, 4, 5])
-        gen.append(g.program(rng.randint(1, 5)))
+        if i % 6 == 5:
+            base.append({"label": "gen-%d" % i, "src": decl_heavy(g, rng).encode(), "origin": "decl"})
+            dims["decl_heavy_programs"] += 1
+        else:
+            base.append({"label": "gen-%d" % i, "src": g.program(rng.randint(1, 5)).encode(), "origin": "gen"})
     ctx.gen_stats = g.stats
-    # decorate a share of the generated programs (and of the repo files) with comments
-    base = [{"label": "gen-%d" % i, "src": s.encode(), "origin": "gen"} for i, s in enumerate(gen)]
-    todo = [b for b in base if rng.random() < decorated_share] + [it for it in items if it["origin"] in ("repo", "focus")]
+    items += base
+    # ---- literal content: rewrite the string literals of generated and repository programs
+    todo = [b for b in base if rng.random() < 0.5] + [it for it in items if it["origin"] == "repo" and rng.random() < 0.5]
+    toks = lex_many([b["src"] for b in todo], pos=True)
+    relit_items = []
+    for b, tk in zip(todo, toks):
+        if tk is None:
+            continue
+        try:
+            text = b["src"].decode("utf-8")
+        except UnicodeDecodeError:
+            continue
+        out, st = fmt_literals.relit(rng, text, tk, share=rng.choice([0.3, 0.6, 1.0]))
+        if out is None:
+            continue
+        dims["programs_relit"] += 1
+        for k, v in st.items():
+            if k.startswith("kind:"):
+                continue
+            dims["literal_features"][k] = dims["literal_features"].get(k, 0) + v
+            dims["literals_replaced"] += v
+        relit_items.append({"label": b["label"] + "+lit", "src": out.encode(), "origin": b["origin"] + "+lit"})
+    items += relit_items
+    # ---- comments: decorate a share of everything above (except the corpus)
+    cands = [it for it in items if it["origin"] != "corpus"]
+    todo = [it for it in cands if rng.random() < (decorated_share if it["origin"] not in ("focus",) else 1.0)]
     toks = lex_many([b["src"] for b in todo], pos=True)
     dec = decorate.Decorator(rng)
     ctx.decorator = dec
@@ -225,25 +271,34 @@ def gather_inputs(ctx, pid, n_gen, decorated_share=0.6, density=(0.05, 0.4), lin
         except UnicodeDecodeError:
             continue
         line_inline = rng.random() < line_inline_share
-        out, placed = dec.decorate(text, tk, density=rng.uniform(*density), blank_lines=rng.choice([0, 0, 0.1, 0.3]),
-                                   line_inline=line_inline)
+        heavy = b["origin"].startswith("decl")
+        out, placed = dec.decorate(text, tk, density=rng.uniform(0.3, 0.8) if heavy else rng.uniform(*density),
+                                   blank_lines=rng.choice([0.3, 0.5]) if heavy else rng.choice([0, 0.1, 0.3, 0.5]),
+                                   line_inline=line_inline, multi=rng.choice([0.0, 0.3, 0.6, 0.9]))
         if out is None:
             failed += 1
             continue
-        it = {"label": b["label"] + "+comments", "src": out.encode(), "origin": b["origin"] + "+dec", "placed": placed}
+        dims["programs_decorated"] += 1
+        dims["multi_comment_placeholders_random"] += dec.multi_slots
+        it = {"label": b["label"] + "+comments", "src": out.encode(), "origin": b["origin"] + "+dec", "placed": placed,
+              "base": b}
         items.append(it)
         if dec.twin is not None:
             # the same program with every line comment that sits between two tokens of a statement rewritten
             # in block style: used to attribute a failure to the known finding "line-comment-inline"
             it["inline_line_comments"] = dec.inline_line
             it["twin"] = {"label": b["label"] + "+comments(twin)", "src": dec.twin.encode(), "origin": b["origin"] + "+dec",
-                          "placed": placed}
+                          "placed": placed, "base": b}
             items.append(it["twin"])
     ctx.decorate_failed = failed
-    items += base
-    # one comment at every documented placeholder of a program with every node kind, in each style
+    # ---- exhaustive: one literal of every feature x kind in every context that takes a string
+    for cx, feature, kind, text in fmt_literals.matrix():
+        items.append({"label": "literal:%s:%s:%s" % (cx, feature, kind), "src": text.encode(), "origin": "literal"})
+        dims["literal_matrix_programs"] += 1
+    # ---- exhaustive: one comment, then 2-3 comments in mixed styles / positions, at every documented placeholder
     ttoks = lex_many([decorate.TEMPLATE.encode()], pos=True)[0]
     n_slot = 0
+    n_slot_multi = 0
     if ttoks is not None:
         for name, kind, style, text, twin in decorate.one_comment_per_slot(rng, ttoks):
             it = {"label": "slot:%s:%s" % (name, style), "src": text.encode(), "origin": "slot", "slot": name}
@@ -254,7 +309,19 @@ def gather_inputs(ctx, pid, n_gen, decorated_share=0.6, density=(0.05, 0.4), lin
                 it["inline_line_comments"] = 1
                 it["twin"] = {"label": "slot:%s:%s(twin)" % (name, style), "src": twin.encode(), "origin": "slot", "slot": name}
                 items.append(it["twin"])
+        for name, kind, pat, text, twin in decorate.several_comments_per_slot(rng, ttoks):
+            it = {"label": "slots:%s:%s" % (name, pat), "src": text.encode(), "origin": "slots", "slot": name}
+            items.append(it)
+            dec.stats_multi[name] = dec.stats_multi.get(name, 0) + 1
+            n_slot_multi += 1
+            if twin is not None:
+                it["inline_line_comments"] = 1
+                it["twin"] = {"label": "slots:%s:%s(twin)" % (name, pat), "src": twin.encode(), "origin": "slots", "slot": name}
+                items.append(it["twin"])
+    dims["one_comment_per_placeholder_programs"] = n_slot
+    dims["several_comments_per_placeholder_programs"] = n_slot_multi
     ctx.slot_items = n_slot
+    ctx.dims = dims
     return items
 
 
@@ -396,9 +463,29 @@ def show_toks(ts, k, width=6):
     return " ".join("%s‹%s›" % (t[1] if t[0] == "T" else "COMMENT", t[2][:30]) for t in ts[max(0, k - width):k + width])
 
 
+# options whose combination matters for declarations (grouping, sorting, alignment, comments)
+DECL_OPTION_PAIRS = [("sort_declaration_property", True), ("align_declaration_property", True), ("align_trailing_comment", True),
+                     ("sort_declaration", True), ("comment_style", "slash"), ("trailing_comment_width", 4)]
+LITERAL_CONFS = [("default", {}), ("narrow+tab+align", {"line_width": 20, "indent_style": "tab", "align_trailing_comment": True}),
+                 ("unlimited+juxtaposed", {"line_width": -1, "explicit_string_concat": False, "break_compound_conditions": False})]
+SLOT_CONFS = [("default", {}), ("comment_style=slash", {"comment_style": "slash"}),
+              ("align+tab+narrow", {"align_trailing_comment": True, "indent_style": "tab", "line_width": 20,
+                                    "align_declaration_property": True})]
+
+
+def option_pairs():
+    out = []
+    for i in range(len(DECL_OPTION_PAIRS)):
+        for j in range(i + 1, len(DECL_OPTION_PAIRS)):
+            (a, va), (b, vb) = DECL_OPTION_PAIRS[i], DECL_OPTION_PAIRS[j]
+            out.append(("%s+%s" % (a, b), {a: va, b: vb}))
+    return out
+
+
 def plan_pairs(ctx, items, n_random):
     rng = ctx.rng
     flips = single_flips()
+    pairs_conf = option_pairs()
     pairs = []
     twins = set(id(it["twin"]) for it in items if it.get("twin"))
     for it in items:
@@ -408,12 +495,25 @@ def plan_pairs(ctx, items, n_random):
         confs = []
         if o == "corpus":
             confs.append(("stored", it.get("conf", {})))
-        if o == "slot":
-            confs += [("default", {}), ("comment_style=slash", {"comment_style": "slash"}),
-                      ("align+tab+narrow", {"align_trailing_comment": True, "indent_style": "tab", "line_width": 20,
-                                            "align_declaration_property": True})]
-        elif o in ("repo", "focus", "corpus", "repo+dec", "focus+dec"):
-            confs += flips
+        if o in ("slot", "slots"):
+            confs += SLOT_CONFS
+        elif o == "literal":
+            confs += LITERAL_CONFS
+        elif o in ("repo", "focus", "corpus"):
+            confs += flips                      # exhaustive: every single-option flip
+            if o != "repo":
+                confs += pairs_conf
+        elif o.startswith("decl"):
+            confs.append(("default", {}))
+            confs += pairs_conf                 # every pair of the declaration options
+            for _ in range(n_random):
+                c = random_config(rng)
+                confs.append((cj(c), c))
+        elif o.startswith(("repo", "focus")):   # repository / focus programs with literals or comments added
+            confs.append(("default", {}))
+            confs += rng.sample(flips[1:], 4)
+            c = random_config(rng)
+            confs.append((cj(c), c))
         else:
             confs.append(("default", {}))
             for _ in range(n_random):
@@ -454,6 +554,8 @@ class Pipeline:
         for i, (it, lab, c) in enumerate(self.pairs):
             self.index[(id(it), cj(c))] = i
         self.fail = {}     # pair index -> list of (aspect, text, details)
+        self.n_string_tokens = self.n_multiline_strings = self.n_trailing_blank_strings = 0
+        self.parseerr_by_origin = {}
         self._judge()
 
     def add(self, i, aspect, text, details=None):
@@ -463,12 +565,15 @@ class Pipeline:
         self.stats = {"pairs": len(self.pairs), "parseerr": 0, "formatted": len(self.ok), "model_compared": 0,
                       "model_agree": 0, "comments_checked": 0, "comments_total": 0, "ast_same": 0, "f2_same": 0,
                       "det_same": 0, "skipped_sort_property_for_model": len(self.ok) - len(self.modelled)}
+        unparseable = set(id(self.pairs[i][0]) for i, r in enumerate(self.res) if r["status"] == "parseerr")
         for i, r in enumerate(self.res):
             it, lab, c = self.pairs[i]
             stt = r["status"]
             if stt == "parseerr":
                 self.stats["parseerr"] += 1
-                if it["origin"].endswith("+dec"):
+                self.parseerr_by_origin[it["origin"]] = self.parseerr_by_origin.get(it["origin"], 0) + 1
+                # (a program the generator made invalid before decorating, e.g. two equal case labels, is not the comment's fault)
+                if it["origin"].endswith("+dec") and id(it.get("base")) not in unparseable:
                     self.add(i, "decorated-unparseable", "a comment at a documented placeholder makes the program unparseable")
                 continue
             if stt != "ok":
@@ -495,6 +600,13 @@ class Pipeline:
             # ---- comments, implementation alone
             tin = parse_raw(self.raw_in[id(it)])
             tout = parse_raw(self.raw_out.get(i))
+            for t in tin:
+                if t[0] == "T" and t[1] == "STRING":
+                    self.n_string_tokens += 1
+                    if "\n" in t[2]:
+                        self.n_multiline_strings += 1
+                        if " \n" in t[2] or "\t\n" in t[2] or "\r\n" in t[2]:
+                            self.n_trailing_blank_strings += 1
             conf = full(c)
             cin = [py_restyle(conf["comment_style"], x) for x in documented_comments(tin)]
             cout = [t[2] for t in tout if t[0] == "C"]
@@ -628,8 +740,34 @@ class Pipeline:
             "generator_stats": dict(sorted(getattr(ctx, "gen_stats", {}).items())),
             "inputs_with_inline_line_comments": sum(1 for it in self.items if it.get("twin")),
             "one_comment_per_slot_inputs": getattr(ctx, "slot_items", 0),
+            "dimensions": self.dimensions(),
         })
         return cov
+
+    def dimensions(self):
+        """per-dimension counts of what this run covered (measured)"""
+        by_origin, opt_values, n_opts = {}, {}, {}
+        for it, lab, c in self.pairs:
+            by_origin[it["origin"]] = by_origin.get(it["origin"], 0) + 1
+            n_opts[len(c)] = n_opts.get(len(c), 0) + 1
+            for k, v in c.items():
+                opt_values["%s=%s" % (k, v)] = opt_values.get("%s=%s" % (k, v), 0) + 1
+        fixed = sum(v for k, v in by_origin.items() if k in ("repo", "corpus", "focus"))
+        d = dict(getattr(self.ctx, "dims", {}))
+        d.update({
+            "pairs_by_origin": dict(sorted(by_origin.items())),
+            "pairs_not_parseable_by_origin": dict(sorted(self.parseerr_by_origin.items())),
+            "pairs_on_fixed_files": fixed, "pairs_on_generated_or_decorated": len(self.pairs) - fixed,
+            "pairs_by_number_of_options_changed": dict(sorted(n_opts.items())),
+            "pairs_by_option_value": dict(sorted(opt_values.items())),
+            "option_pairs_exhaustive": [lab for lab, _ in option_pairs()],
+            "comments_in_sources": self.stats.get("comments_total", 0),
+            "multi_comment_placeholders_exhaustive": sum(getattr(self.ctx, "decorator").stats_multi.values()) if hasattr(self.ctx, "decorator") else 0,
+            "string_literals_compared": self.n_string_tokens,
+            "multi_line_string_literals_compared": self.n_multiline_strings,
+            "string_literals_with_blank_before_line_feed": self.n_trailing_blank_strings,
+        })
+        return d
 
     def samples(self):
         out = []
